@@ -62,6 +62,8 @@ enum Tok {
     TxnCommit,
     TxnDrop,
     TxnRollback,
+    /// composite: begin; push_back; push_back; commit
+    Txn2,
     Subscribe(Kind),
     DropSub(u8),
     Poll(u8),
@@ -94,6 +96,8 @@ struct Cfg {
     alphabet: Alphabet,
     txn: bool,
     txn_abort: bool,
+    /// offer the composite two-diff transaction token
+    txn2: bool,
     oob: bool,
     subscribe: bool,
     drop_sub: bool,
@@ -279,6 +283,9 @@ impl<E: El> Harness for VecH<E> {
                     }
                 }
             }
+            if cfg.txn2 && m.txn_len.is_none() && m.len + 2 <= cfg.max_len {
+                out.push(Tok::Txn2);
+            }
             if cfg.subscribe && m.txn_len.is_none() && (m.subs.iter().filter(|s| s.alive).count() as u8) < cfg.max_subs {
                 out.push(Tok::Subscribe(Kind::Plain));
                 out.push(Tok::Subscribe(Kind::Batched));
@@ -331,6 +338,11 @@ impl<E: El> Harness for VecH<E> {
             Tok::TxnRollback => {
                 m.txn_vec = m.vec.clone();
                 m.txn_len = Some(m.len);
+            }
+            Tok::Txn2 => {
+                op_effect(Op::PushBack, &mut m.vec, &mut m.next_id);
+                op_effect(Op::PushBack, &mut m.vec, &mut m.next_id);
+                m.len = m.vec.len() as u8;
             }
             Tok::Subscribe(_) => m.subs.push(SubM { alive: true, manual: cfg.new_sub_policy == Policy::Manual }),
             Tok::DropSub(i) => m.subs[i as usize].alive = false,
@@ -812,6 +824,36 @@ impl<E: El> Rest<E> {
             StreamR::Batched(b) => Pin::new(b).poll_next(&mut cx),
         };
         st.transitions += 1;
+        if !self.cfg.probe {
+            // Without the always-drained subscriber there is no message log
+            // (these configurations exist so that *all* receivers can go away,
+            // e.g. in the middle of a transaction): only applicability, the
+            // end-of-stream rule and the element accounting (C20) are checked.
+            return match res {
+                Poll::Pending => {
+                    s.last_pending = Some(flag);
+                    Ok(Polled::Pending)
+                }
+                Poll::Ready(None) => {
+                    if alive {
+                        return Err(viol("C08", step, format!("ended-while-alive/{:?}", s.kind), format!("{name}: stream ended although the vector is alive")));
+                    }
+                    s.ended = true;
+                    Ok(Polled::End)
+                }
+                Poll::Ready(Some(batch)) => {
+                    for d in &batch {
+                        if let Err(e) = apply_checked(d, &mut s.replica) {
+                            return Err(viol(prop, step, format!("inapplicable/{}", diff_kind(d)), format!("{name}: {e}")));
+                        }
+                    }
+                    if batch.len() > 1 || matches!(s.kind, Kind::Plain) {
+                        s.mid = 1; // "has received something": used by the mid-batch counter only
+                    }
+                    Ok(Polled::Item)
+                }
+            };
+        }
         let pending_msgs = if s.mid > 0 { total - s.next_seq - 1 } else { total - s.next_seq };
         // C14: never ready again without the waker of the Pending poll having
         // been woken.
@@ -1202,6 +1244,13 @@ impl<E: El> World<E> {
                     i = self.run_txn(toks, i, st)?;
                     continue;
                 }
+                Tok::Txn2 => {
+                    const SYN: [Tok; 4] = [Tok::TxnBegin, Tok::Op(Op::PushBack), Tok::Op(Op::PushBack), Tok::TxnCommit];
+                    self.run_txn(&SYN, 0, st)?;
+                    self.r.step = i;
+                    i += 1;
+                    continue;
+                }
                 Tok::Op(op) => {
                     let pre = self.r.vec.clone();
                     let ob = self.ob.as_mut().unwrap();
@@ -1255,7 +1304,7 @@ impl<E: El> World<E> {
                 }
                 st.mark("woken_by_drop");
             }
-            if s.stream.is_some() {
+            if s.stream.is_some() && self.r.cfg.probe {
                 let pending = self.r.msgs.len() - s.next_seq - if s.mid > 0 { 1 } else { 0 };
                 if pending == 0 && s.mid == 0 {
                     st.hit("dropped_with_subscriber_up_to_date");
@@ -1306,7 +1355,9 @@ impl<E: El> World<E> {
                 Tok::Op(op) => {
                     let n = apply_op(&mut txn, op, &mut work, &mut r.next_id, i, st).map_err(|mut v| {
                         if v.sig.starts_with("contents/") {
-                            v.prop = "C07";
+                            // the transaction's own view of its pending changes:
+                            // C07 names it, C17 states it for every mutator
+                            v.prop = if r.cfg.prop == "C07" { "C07" } else { "C17" };
                             v.sig = format!("txn-deref/{}", op_name(op));
                         }
                         v
@@ -1371,7 +1422,7 @@ impl<E: El> World<E> {
                     return Ok(i + 1);
                 }
                 t @ (Tok::Poll(_) | Tok::Drain(_) | Tok::DropSub(_)) => r.sub_tok(t, st)?,
-                Tok::TxnBegin | Tok::Subscribe(_) | Tok::DropVec => unreachable!("token not enabled inside a transaction"),
+                Tok::TxnBegin | Tok::Txn2 | Tok::Subscribe(_) | Tok::DropVec => unreachable!("token not enabled inside a transaction"),
             }
             r.after_token(st)?;
             i += 1;
@@ -1656,6 +1707,7 @@ fn base(prop: &'static str) -> Cfg {
         alphabet: Alphabet::Full,
         txn: false,
         txn_abort: false,
+        txn2: false,
         oob: false,
         subscribe: false,
         drop_sub: false,
@@ -1815,7 +1867,29 @@ fn plans(prop: &str, tier: &str) -> Vec<Plan> {
                     ));
                 }
             }
-            out.push(Plan { name: "c20-vec-reduced", cfgs, depth: if q { 6 } else { 7 } });
+            out.push(Plan { name: "c20-vec-reduced", cfgs, depth: if q { 5 } else { 6 } });
+            // composite two-diff transaction: reaches "stream dropped mid-batch
+            // with a further unreceived update" at a small depth
+            let mut cfgs = Vec::new();
+            for cap in [1usize, 16] {
+                for ps in &sub_sets {
+                    cfgs.extend(with_lens(
+                        Cfg { capacity: cap, pre_subs: ps.clone(), txn2: true, alphabet: Alphabet::Reduced, drop_vec: true, drop_sub: true, epilogue_drop: cap == 1, ..base("C20") },
+                        0..=1,
+                    ));
+                }
+            }
+            out.push(Plan { name: "c20-vec-txn2", cfgs, depth: if q { 5 } else { 6 } });
+            // no always-drained subscriber: every receiver can disappear, also
+            // in the middle of a transaction
+            let mut cfgs = Vec::new();
+            for ps in &sub_sets[..3] {
+                cfgs.extend(with_lens(
+                    Cfg { probe: false, pre_subs: ps.clone(), txn: true, txn_abort: true, txn2: true, alphabet: Alphabet::Reduced, drop_vec: true, drop_sub: true, ..base("C20") },
+                    0..=1,
+                ));
+            }
+            out.push(Plan { name: "c20-vec-all-receivers-may-go", cfgs, depth: if q { 5 } else { 6 } });
             let mut cfgs = Vec::new();
             for ps in &sub_sets[..3] {
                 cfgs.extend(with_lens(Cfg { pre_subs: ps.clone(), txn: true, txn_abort: true, drop_sub: true, oob: true, ..base("C20") }, 0..=2));
